@@ -2,6 +2,7 @@
 size_t gz_i;
 size_t gz_j;
 size_t gz_k;
+size_t gz_r;
 bool gz_extended;
 civil_lookup gz_mt;
 size_t gz_hint;
